@@ -231,6 +231,9 @@ func cloudCase(t *rapid.T, family [][]*gostatsd.Metric, perm []int, wantPlain mo
 				id = "shared"
 			}
 			outcome[gostatsd.Source(s)] = &gostatsd.Instance{ID: gostatsd.Source("id-" + id), Tags: gostatsd.Tags{"inst:" + id}}
+			if rapid.IntRange(0, 2).Draw(t, "tagless-instance-"+s) == 0 {
+				outcome[gostatsd.Source(s)].Tags = nil // an instance the provider has an id for but no tags
+			}
 		} else {
 			outcome[gostatsd.Source(s)] = nil
 		}
@@ -294,6 +297,9 @@ func cloudCase(t *rapid.T, family [][]*gostatsd.Metric, perm []int, wantPlain mo
 		if d := model.DupKeys(m); len(d) > 0 {
 			vt.Fail(t, "C07:duplicate-series:cloud", "cloud stage emitted a series under two keys: %v", d)
 		}
+		if d := model.StaleKeys(m); len(d) > 0 {
+			vt.Fail(t, "C07:stale-key:cloud", "cloud stage emitted a series under a key that is not its own (the next merge by key keeps it apart from its equals): %v", d)
+		}
 		gotAgg.AddMap(m)
 	}
 	if d := model.Diff(gotAgg, want, opts); d != "" {
@@ -338,6 +344,9 @@ func tagCase(t *rapid.T, base []*gostatsd.MetricMap, perm []int) {
 	for _, m := range maps {
 		if d := model.DupKeys(m); len(d) > 0 {
 			vt.Fail(t, "C07:duplicate-series:tags", "tag stage emitted a series under two keys: %v", d)
+		}
+		if d := model.StaleKeys(m); len(d) > 0 {
+			vt.Fail(t, "C07:stale-key:tags", "tag stage emitted a series under a key that is not its own: %v", d)
 		}
 		got.AddMap(m)
 	}
